@@ -474,7 +474,11 @@ func (c *Checker) Finish() int {
 	b, _ := json.MarshalIndent(ev, "", " ")
 	dir := filepath.Join(OutDir(), "evidence")
 	os.MkdirAll(dir, 0o755)
-	if err := os.WriteFile(filepath.Join(dir, c.Prop+".json"), b, 0o644); err != nil {
+	name := c.Prop + ".json"
+	if os.Getenv("VERIF_ONLY") != "" || os.Getenv("VERIF_TRIAGE") != "" {
+		name = c.Prop + ".partial-debug-run.json" // a filtered / triage run must not replace the evidence of a full run
+	}
+	if err := os.WriteFile(filepath.Join(dir, name), b, 0o644); err != nil {
 		HarnessError("cannot write evidence: %v", err)
 	}
 	fmt.Printf("SUMMARY property=%s tier=%s evaluations=%d nontrivial=%d outcomes=%v new_violations=%d known=%d flaky=%d exhaustive=%v wall=%.1fs\n",
